@@ -323,7 +323,8 @@ func c01Run(scratch string, c c01Case) c01Result {
 
 func c01Configs(thorough bool) []c01Cfg {
 	var cs []c01Cfg
-	rsets := [][]string{{"a@example.org"}, {"a@example.org", "b@example.org"}, {"a@example.org", "ü@пример.рф"}}
+	// the last pair: two distinct recipients whose lookup keys coincide (letter case)
+	rsets := [][]string{{"a@example.org"}, {"a@example.org", "b@example.org"}, {"a@example.org", "ü@пример.рф"}, {"John.Doe@example.org", "john.doe@example.org"}}
 	if thorough {
 		rsets = append(rsets, []string{"a@example.org", "b@example.org", "c@xn--e1afmkfd.xn--p1ai"})
 	}
